@@ -24,6 +24,7 @@ Inductive obs :=
 | OUpd (id : nat) (ts : Z) (v : oval)        (* client family: update response *)
 | ODel (id : nat) (ts : Z)                   (* client family: delete response *)
 | OSync (b : bool)                           (* client family: sync response *)
+| OLatest (z : Z)                            (* queue family: UpdateQueue.Latest() after the run *)
 | OEnd (e : ending).                         (* the run ended before the step bound *)
 
 (** tapes are written as primitive 63-bit integers in cases files (a raw
@@ -44,6 +45,7 @@ Record case := mkCase {
   c_obs : list obs;
   c_obs2 : list obs;
   c_draws : list draw;
+  c_late : option (nat * value);   (* queue family: UpdateQueue.Add(value) after that many Next calls *)
   c_fixed : option (list obs * list nat);   (* family fixed: backing array of responses, prefix
                                                lengths of the generators run one after another;
                                                c_obs = first generator, c_obs2 = last one *)
@@ -95,6 +97,7 @@ Definition obs_eqb (a b : obs) : bool :=
   | ODel i t, ODel i' t' => Nat.eqb i i' && Z.eqb t t'
   | OSync b, OSync b' => Bool.eqb b b'
   | OEnd e, OEnd e' => ending_eqb e e'
+  | OLatest z, OLatest z' => Z.eqb z z'
   | _, _ => false
   end.
 
@@ -153,10 +156,34 @@ Fixpoint draws_ok (ds : list draw) (t : tape) : bool :=
       match float64 t with RV f t' => (float_scaled f =? r) && draws_ok ds' t' | _ => false end
   end.
 
+(** queue family: Next calls, optionally an Add after [k] of them, then Latest() *)
+Definition queue_run (c : case) : list value * ending * Z :=
+  match reset (c_vals c) (c_gtape c) (c_nosync c) with
+  | Ok q0 =>
+      match c_late c with
+      | None => let '(tr, e, qf) := run_state (c_steps c) q0 in (tr, e, qlatest qf)
+      | Some (k, v) =>
+          let '(tr1, e1, q1) := run_state k q0 in
+          match e1 with
+          | EMore =>
+              match add_value v q1 with
+              | Ok q2 => let '(tr2, e2, q3) := run_state (c_steps c - k) q2 in
+                         (tr1 ++ tr2, e2, qlatest q3)
+              | _ => (tr1, EPanic, qlatest q1)
+              end
+          | _ => (tr1, e1, qlatest q1)
+          end
+      end
+  | _ => ([], EPanic, 0)
+  end.
+
 Definition model_obs (c : case) : list obs :=
-  let r := run_cfg (c_vals c) (c_gtape c) (c_nosync c) (c_steps c) in
-  if c_client c then client_obs (fst r) (snd r)
-  else map emit_obs (fst r) ++ match snd r with EMore => [] | e => [OEnd e] end.
+  if c_client c then
+    let r := run_cfg (c_vals c) (c_gtape c) (c_nosync c) (c_steps c) in
+    client_obs (fst r) (snd r)
+  else
+    let '(tr, e, lat) := queue_run c in
+    map emit_obs tr ++ [OLatest lat] ++ match e with EMore => [] | e => [OEnd e] end.
 
 (** ** the specification side (uses the configuration, never the model) *)
 
@@ -171,6 +198,7 @@ Definition erec_of (o : obs) : option erec :=
   | ODel i t => Some (mkE (Some i) t None VDelete)
   | OSync b => Some (mkE None 0 None (VSync (if b then 1 else 0)))
   | OEnd _ => None
+  | OLatest _ => None
   end.
 
 Fixpoint erecs (l : list obs) : list erec :=
@@ -265,8 +293,15 @@ Definition in_dist (k : kind) (x : oval) : bool :=
   | _, _ => false
   end.
 
+(** the first emission is the configured value (a double up to the sign of a zero:
+    whether the value travels through proto.Clone, which drops it, is an
+    implementation detail and is compared under tag 1 only) *)
 Definition first_ok (client : bool) (v : value) (e : erec) : bool :=
-  (e_ts e =? vts v) && oval_eqb (e_val e) (oval_of (vk v)).
+  (e_ts e =? vts v) &&
+  match e_val e, oval_of (vk v) with
+  | VDouble x, VDouble y => feqb x y || PrimFloat.eqb x y
+  | a, b => oval_eqb a b
+  end.
 
 Fixpoint range_from (vs : list value) (seen : list erec) (l : list erec) : bool :=
   match l with
@@ -470,7 +505,10 @@ Definition check_case (c : case) : list (nat * N) :=
   match c_fixed c with Some (arr, ks) => check_fixed c arr ks | None =>
   let vs := c_vals c in
   let cl := c_client c in
-  let l := erecs (c_obs c) in
+  let l := filter (fun e => match e_id e with
+                            | Some i => Nat.leb i (List.length vs)   (* a value Add-ed later is not a configured value *)
+                            | None => true
+                            end) (erecs (c_obs c)) in
   let e := end_of (c_obs c) in
   let ovf := class_ts_ovf vs l in
   let err_ok := negb (cfg_valid cl vs) || class_width vs || ovf || ts_ovf_possible vs l in
